@@ -65,7 +65,7 @@ type runRec struct {
 }
 
 func blankEv(a, e string) outEv {
-	return outEv{"a": a, "e": e, "i": 0, "j": 0, "k": 0, "loc": 0, "kind": 0, "buf": 0}
+	return outEv{"a": a, "e": e, "i": 0, "j": 0, "k": 0, "loc": 0, "kind": 0, "buf": 0, "cap": 0}
 }
 
 func settle(base int) int {
@@ -443,9 +443,208 @@ func fdRuns(out func(*runRec), seed int64, procs []int) {
 	}
 }
 
+// fdModRuns: the user function uses its argument as scratch space (it overwrites it after reading it). The serial code
+// protects every evaluation by a fresh copy of x ("Copy x in case it is modified during the call"), so, with the property's
+// "concurrent finite differences return the serial answer", every path must return the answer of the well-behaved
+// function bit for bit (dyadic steps and an integer polynomial: every stencil value and every partial sum is exact, the
+// summation order cannot matter), must leave the caller's x (and y) untouched and must call the function as often.
+// n = 24 gives more stencil evaluations than workers for every GOMAXPROCS used. Runs of one routine are emitted with the
+// concurrent path first and the serial path last (the Python side validates one trace per routine).
+func fdModRuns(out func(*runRec), seed int64, procs []int) {
+	const n = 24
+	w := make([]float64, n)
+	x0 := make([]float64, n)
+	y0 := make([]float64, n)
+	for i := range w {
+		w[i] = float64(2 + i%5)
+		x0[i] = 0.25*float64(i%7) - 0.5
+		y0[i] = 0.25 * float64(1+i%3)
+	}
+	poly := func(x []float64) float64 {
+		s := 3.0
+		for i, v := range x {
+			s += float64(i%4+1)*v*v + float64(2-i%5)*v
+			if i > 0 {
+				s += x[i-1] * v
+			}
+		}
+		return s
+	}
+	scribble := func(x []float64) {
+		for i := range x {
+			x[i] = x[i]*w[i%len(w)] + 1
+		}
+	}
+	type fm struct {
+		name string
+		f    fd.Formula
+	}
+	first := []fm{{"Forward", fd.Forward}, {"Backward", fd.Backward}, {"Central", fd.Central}}
+	second := []fm{{"Forward2nd", fd.Forward2nd}, {"Backward2nd", fd.Backward2nd}, {"Central2nd", fd.Central2nd}}
+	same := func(a, b []float64) bool {
+		for i := range a {
+			if math.Float64bits(a[i]) != math.Float64bits(b[i]) {
+				return false
+			}
+		}
+		return true
+	}
+	for _, routine := range []string{"Gradient", "Jacobian", "Hessian", "Laplacian", "CrossLaplacian"} {
+		forms := first
+		if routine == "Laplacian" {
+			forms = second
+		}
+		// one call: returns the result, the number of calls of the user function and whether x (and y) are as before
+		call := func(fmv fm, conc, mod bool) (vals []float64, calls int64, intact bool) {
+			var cnt atomic.Int64
+			yr := rand.New(rand.NewSource(seed + int64(len(routine))))
+			var ymu sync.Mutex
+			yield := func() {
+				cnt.Add(1)
+				ymu.Lock()
+				k := yr.Intn(3)
+				ymu.Unlock()
+				for i := 0; i < k; i++ {
+					runtime.Gosched()
+				}
+			}
+			f := func(x []float64) float64 {
+				yield()
+				v := poly(x)
+				if mod {
+					scribble(x)
+				}
+				return v
+			}
+			x := append([]float64(nil), x0...)
+			y := append([]float64(nil), y0...)
+			st := &fd.Settings{Formula: fmv.f, Step: 1.0 / 32, Concurrent: conc}
+			switch routine {
+			case "Gradient":
+				vals = fd.Gradient(nil, f, x, st)
+			case "Jacobian":
+				const m = 5
+				g := func(dst, x []float64) {
+					yield()
+					for i := range dst {
+						s := float64(i + 1)
+						for j, v := range x {
+							s += float64((i+j)%3+1) * v * v
+						}
+						dst[i] = s
+					}
+					if mod {
+						scribble(x)
+					}
+				}
+				d := mat.NewDense(m, n, nil)
+				fd.Jacobian(d, g, x, &fd.JacobianSettings{Formula: fmv.f, Step: 1.0 / 32, Concurrent: conc})
+				vals = d.RawMatrix().Data
+			case "Hessian":
+				h := mat.NewSymDense(n, nil)
+				fd.Hessian(h, f, x, st)
+				vals = h.RawSymmetric().Data
+			case "Laplacian":
+				vals = []float64{fd.Laplacian(f, x, st)}
+			case "CrossLaplacian":
+				g := func(a, b []float64) float64 {
+					yield()
+					v := poly(a) * (1 + b[0])
+					if mod {
+						scribble(a)
+						scribble(b)
+					}
+					return v
+				}
+				vals = []float64{fd.CrossLaplacian(g, x, y, st)}
+			}
+			return vals, cnt.Load(), same(x, x0) && same(y, y0)
+		}
+		type plan struct {
+			fmv  fm
+			p    int
+			conc bool
+		}
+		var plans, serialPlans []plan
+		for _, fmv := range forms {
+			for _, p := range procs {
+				if p > 1 {
+					plans = append(plans, plan{fmv, p, true})
+				} else {
+					serialPlans = append(serialPlans, plan{fmv, p, true}) // one worker: computeWorkers takes the serial path
+				}
+			}
+			serialPlans = append(serialPlans, plan{fmv, 4, false})
+		}
+		for _, pl := range append(plans, serialPlans...) {
+			ref, refCalls, _ := call(pl.fmv, false, false)
+			old := runtime.GOMAXPROCS(pl.p)
+			base := runtime.NumGoroutine()
+			var got []float64
+			var calls int64
+			var intact bool
+			o := core.Call(func() { got, calls, intact = call(pl.fmv, pl.conc, true) })
+			leaked := settle(base)
+			runtime.GOMAXPROCS(old)
+			ok := 0
+			if !o.Panicked && intact && len(got) == len(ref) && same(got, ref) {
+				ok = 1
+			}
+			path := "concurrent"
+			if !pl.conc || pl.p == 1 {
+				path = "serial"
+			}
+			set := "Concurrent=false"
+			if pl.conc {
+				set = "Concurrent=true"
+			}
+			out(&runRec{Kind: "call", Name: fmt.Sprintf("fd.%s scribbling-f %s %s n=%d %s procs=%d intact=%t", routine, path, pl.fmv.name, n, set, pl.p, intact),
+				Leaked: leaked, Calls: calls, ExpCalls: refCalls, OK: ok, Ev: []outEv{}})
+		}
+	}
+}
+
 // poolWork is one independent computation that uses the mat workspace pools
 // heavily (aliased products, banded in-place products, solves).
-func poolWork(id int, iters int) string {
+//
+// Every fourth id first factorizes, with mat.HOGSVD, integer matrices with DIFFERENT row counts (the first shorter
+// than a later one: 3x2 then 5x2, 2x2 then 3x2 then 5x2; and the reverse order): Factorize borrows n x rows workspaces
+// from the same pools, and what it puts back is what the other goroutines' products and solves are handed next.
+// A panic (e.g. a workspace smaller than its pool promises) is part of the result string.
+func poolWork(id int, iters int) (res string) {
+	defer func() {
+		if e := recover(); e != nil {
+			res = fmt.Sprintf("panic: %v", e)
+		}
+	}()
+	var hog []float64
+	if id%4 == 0 {
+		rows := [][]int{{3, 5}, {5, 3}, {2, 3, 5}, {1, 3}}[(id/4)%4]
+		cols := 2
+		if rows[0] == 1 {
+			cols = 1
+		}
+		ms := make([]mat.Matrix, len(rows))
+		for q, rr := range rows {
+			d := mat.NewDense(rr, cols, nil)
+			for i := 0; i < rr; i++ {
+				for j := 0; j < cols; j++ {
+					v := float64((i*(id+2)+j*3+i*j+q)%5 - 2)
+					if i == j {
+						v += float64(4 + q)
+					}
+					d.Set(i, j, v)
+				}
+			}
+			ms[q] = d
+		}
+		var h mat.HOGSVD
+		if h.Factorize(ms...) {
+			for q := range ms {
+				hog = append(hog, h.Values(nil, q)...)
+			}
+		}
+	}
 	r := rand.New(rand.NewSource(int64(id)))
 	n := 3 + id%5
 	a := mat.NewDense(n, n, nil)
@@ -484,7 +683,7 @@ func poolWork(id int, iters int) string {
 			v.AddVec(v, &s)
 		}
 	}
-	return hashF64(append(append([]float64(nil), m.RawMatrix().Data...), v.RawVector().Data...))
+	return hashF64(append(append(append([]float64(nil), m.RawMatrix().Data...), v.RawVector().Data...), hog...))
 }
 
 func poolRuns(out func(*runRec), trace bool, seed int64, procs []int) {
@@ -515,7 +714,7 @@ func poolRuns(out func(*runRec), trace bool, seed int64, procs []int) {
 		runtime.GOMAXPROCS(old)
 		ok := 1
 		for g := range got {
-			if got[g] != serial[g] {
+			if got[g] != serial[g] || strings.HasPrefix(got[g], "panic") {
 				ok = 0
 			}
 		}
@@ -529,7 +728,8 @@ func poolRuns(out func(*runRec), trace bool, seed int64, procs []int) {
 			if _, ok := bufs[e.b]; !ok {
 				bufs[e.b] = len(bufs) + 1
 			}
-			o["kind"], o["buf"] = e.a, bufs[e.b]
+			// e.c: the capacity of the workspace's backing slice, 0 while the hook in mat/pool.go does not log it
+			o["kind"], o["buf"], o["cap"] = e.a, bufs[e.b], e.c
 			rr.Ev = append(rr.Ev, o)
 		}
 		out(rr)
@@ -538,7 +738,7 @@ func poolRuns(out func(*runRec), trace bool, seed int64, procs []int) {
 
 // record: args kinds=gemm,quad,jac,pool procs=1,2,4,16 reps=N notrace
 func record(out *core.Out, args []string, seed int64, sum *core.Summary) error {
-	kinds := map[string]bool{"gemm": true, "quad": true, "jac": true, "pool": true, "fd": true}
+	kinds := map[string]bool{"gemm": true, "quad": true, "jac": true, "pool": true, "fd": true, "fdmod": true}
 	procs := []int{1, 2, 4, 16}
 	reps, trace := 2, true
 	for _, a := range args {
@@ -586,6 +786,9 @@ func record(out *core.Out, args []string, seed int64, sum *core.Summary) error {
 	}
 	if kinds["fd"] {
 		fdRuns(emit, seed, procs)
+	}
+	if kinds["fdmod"] {
+		fdModRuns(emit, seed, procs)
 	}
 	return nil
 }
